@@ -27,11 +27,24 @@
       end and the final state is the one the C06 theorems describe. With observers that unregister
       themselves the exactness of the pair set is refuted ([C09_active_observers_refuted]); the
       shape and content of every entry still holds ([C09_*_partial]).
-    Not covered by theorems: relation events in relation worlds, SetRelationsBatch - `observers`
+    - RELATION BATCH (BatchViewRel.v; worlds WITH relation components, passive OnRemoveRelations /
+      OnAddRelations observers, no further invariant): the log of a successful SetRelationsBatch is
+      (OnRemoveRelations entries) ++ (batch-callback entries) ++ (OnAddRelations entries); every removal
+      entry is the entry computed on ONE state [s_pre] in which no row of the batch has moved (same index,
+      pool and rows as before the call; if recycled tables are empty - clause of [St2] - also the same
+      [world_view] and literally the same non-empty tables), every add entry is the entry computed on ONE
+      state [s_post] reached after ALL moves, which has the tables, archetypes, index and pool of the final
+      state ([C09_set_relations_batch]; under [St2], directly: removal entries = entries computed on the
+      pre-state, add entries = entries computed on the final state, [C09_set_relations_batch_timing]). If planning is rejected for any table of the batch the call
+      fails before any row moved and before any callback ran; unlocked again ([C09_set_relations_batch_rejected]).
+    Not covered by theorems: the exact set of (observer, entity) pairs of the relation events (only: registered
+    observers, rows of the planned tables), relation events of the single-entity operations - `observers`
     correspondence stream: every callback's [locked, alive, occurrence count, snapshot] is compared
     with the model, plus the oracle "alive and seen exactly once" on the implementation's own log. *)
 From Ark Require Import Model.Base Model.Mask Model.Pool Model.Util Model.World Model.Run.
-From Ark Require Import Proofs.WF Proofs.StorageA Proofs.StorageBDefs Proofs.ViewProofs Proofs.BatchView Proofs.StorageD Properties.Common.
+From Ark Require Import Proofs.WF Proofs.StorageA Proofs.StorageBDefs Proofs.ViewProofs Proofs.BatchProofs Proofs.BatchView Proofs.BatchViewRel Proofs.StorageD Properties.Common.
+From RecordUpdate Require Import RecordSet.
+Import RecordSetNotations.
 
 Theorem C09_callback_logs_state_at_callback_time : forall oi e s u s',
   run_callback oi e s = Ok u s' -> w_log s' = w_log s ++ [v_cb_entry oi e s].
@@ -83,7 +96,9 @@ Definition cb_world : W :=
   exec small_cfg [[1; 2; 0; 1]; [1; 1; 0]; [9; 0; 0; 5]; [9; 0; 1; 6]; [25; 252; 0; 0; 0; 0; 0]; [26; 0]]%Z.
 Example C09_remove_callback_entry :
   snd (step false false cb_world [7; 0; 1; 0]%Z) =
-  [0; 0;  1; 16; 100; 0; 2; 0; 1; 1; 1; 2; 0; 5; 0; 0; 1; 6; 0; 0;
+  [0; 0;  1; 34; 100; 0; 2; 0; 1; 1; 1; 2; 0; 5; 0; 0; 1; 6; 0; 0;
+   (* the world as the callback sees it ([world_view]): both entities, nothing changed yet *)
+   2; 0; 2; 0; 5; 0; 0; 1; 6; 0; 0;  3; 0; 1; 0; 0; 0; 0;
    2; 1; 1; 1; 6; 0; 0; 1; 1; 0; 0; 0; 0; 2; 0]%Z.
 Proof. vm_compute. reflexivity. Qed.
 
@@ -98,6 +113,53 @@ Definition C09_active_observers_refuted := remove_entities_view_active_refuted.
 Definition C09_batch_examples := (batch_view_nonvacuous, bv_world_remove_entities, remove_entities_view_example,
   exchange_batch_view_example, new_batch_view_example).
 
+(** ** The relation batch with relation observers (BatchViewRel.v): all OnRemoveRelations entries are computed
+    on the state [s_pre] BEFORE any row of the batch moved and precede every batch-callback entry and every
+    OnAddRelations entry; all OnAddRelations entries are computed on the state [s_post] AFTER all moves. *)
+Theorem C09_set_relations_batch : forall s fi brels rels s',
+  bv_lock_ok (w_lock s) [] -> bv_passive s EvRemoveRelations -> bv_passive s EvAddRelations ->
+  w_set_relations_batch fi brels rels s = Ok tt s' ->
+  exists lb s_pre s_post plans moved Pr Pa es,
+    bvr_pre s lb s_pre /\ bvr_vw s s_pre /\
+    bvr_rem_ok s_pre plans Pr /\ bvr_add_ok s_post moved Pa /\
+    w_log s' = w_log s ++ bv_entries s_pre Pr ++ map b_entry es ++ bv_entries s_post Pa /\
+    (exists s_pre', bv_ev [lb] s_pre s_pre' (bv_entries s_pre Pr) /\
+                    mapM plans set_relations_move s_pre' = Ok moved s_post) /\
+    bv_lock_ok (w_lock s_post) [lb] /\ bv_mgr_same s s_post /\ w_pool s_post = w_pool s /\
+    w_tables s' = w_tables s_post /\ w_archs s' = w_archs s_post /\ w_index s' = w_index s_post /\
+    w_pool s' = w_pool s_post /\ world_view s' = world_view s_post /\
+    bv_lock_ok (w_lock s') [] /\ is_locked s' = false.
+Proof. exact set_relations_batch_view. Qed.
+
+(** The same on the pre-state and the final state only (relation invariant [St2]): every OnRemoveRelations
+    entry is the entry of its entity computed on the PRE-state (locked), every OnAddRelations entry the one
+    computed on the FINAL state (locked). *)
+Theorem C09_set_relations_batch_timing : forall s fi brels rels s',
+  Rel2Defs.St2 s -> bv_lock_ok (w_lock s) [] -> bv_passive s EvRemoveRelations -> bv_passive s EvAddRelations ->
+  w_set_relations_batch fi brels rels s = Ok tt s' ->
+  exists Pr Pa es,
+    w_log s' = w_log s ++ map (fun p => bvr_locked_entry (fst p) (snd p) s) Pr ++ map b_entry es ++
+                         map (fun p => bvr_locked_entry (fst p) (snd p) s') Pa /\
+    (forall p, In p Pr -> In (fst p) (olist s EvRemoveRelations)) /\
+    (forall p, In p Pa -> In (fst p) (olist s EvAddRelations)) /\
+    is_locked s' = false.
+Proof. exact set_relations_batch_timing. Qed.
+
+Theorem C09_set_relations_batch_rejected : forall s fi brels rels,
+  bv_lock_ok (w_lock s) [] -> rels <> [] ->
+  exists lb l1, lock_lock (w_lock s) = Some (lb, l1) /\
+    forall er sx, bvr_planning fi brels rels (s <| w_lock := l1 |>) = Err er sx ->
+    exists s', w_set_relations_batch fi brels rels s = Err er s' /\
+      w_index s' = w_index s /\ w_pool s' = w_pool s /\ w_log s' = w_log s /\ bv_mgr_same s s' /\
+      (forall tid t, nth_error (w_tables s) tid = Some t ->
+         exists t', nth_error (w_tables s') tid = Some t' /\ table_same_data t t') /\
+      bvr_vw s s' /\ w_tables s' = w_tables sx /\ w_archs s' = w_archs sx /\
+      bv_lock_ok (w_lock s') [] /\ is_locked s' = false.
+Proof. exact set_relations_batch_rejected. Qed.
+
+Definition C09_relation_batch_examples := (set_relations_batch_view_nonvacuous, set_relations_batch_view_example,
+  bvr_world_view, bvr_world_timing, set_relations_batch_rejected_nonvacuous, set_relations_batch_rejected_example, bvr_free_empty_St2).
+
 (** Over histories (StorageD.v): "appears exactly once in any query" without the extra hypothesis:
     [tables_listed] is an invariant of every history of the core operations, queries and filter
     creation. *)
@@ -108,5 +170,6 @@ Definition C09_all := (C09_live_seen_exactly_once_after_every_history, C09_snaps
   C09_removal_events_see_old_content, C09_add_events_after_change, C09_seen_at_most_once, C09_dead_never_seen,
   C09_live_seen_exactly_once_partial, C09_remove_entities_batch, C09_exchange_batch, C09_new_batch,
   C09_remove_entities_batch_partial, C09_exchange_batch_partial, C09_new_batch_partial,
-  C09_active_observers_refuted, C09_batch_examples).
+  C09_active_observers_refuted, C09_batch_examples,
+  C09_set_relations_batch, C09_set_relations_batch_timing, C09_set_relations_batch_rejected, C09_relation_batch_examples).
 Print Assumptions C09_all.
